@@ -1,7 +1,7 @@
 (** C08 timeline model: the heights at which a node reacts to an unresolved HTLC, written
-    declaratively over the (generated) predicates. Blocks are delivered one at a time; a
+    declaratively over the predicates regenerated from the Rust source (Gen/CltvChecks.v). Blocks are delivered one at a time; a
     predicate "first fires at H (scanning from h0)" means it is false on [h0, H) and true at H. *)
-Require Import LdkV.Prim.U64 LdkV.Gen.Consts LdkV.Model.CltvHand.
+Require Import LdkV.Prim.U64 LdkV.Gen.Consts LdkV.Gen.CltvChecks.
 Open Scope Z_scope.
 
 Definition first_fires (p : Z -> bool) (h0 H : Z) : Prop :=
@@ -19,14 +19,14 @@ Definition confirms_within (b c : Z) : Prop := b < c <= b + MAX_BLOCKS_FOR_CONF.
 Record fwd_timeline := { tl_H : Z; tl_c1 : Z; tl_c2 : Z; tl_F : Z }.
 
 Definition fwd_timeline_ok (out_cltv h0 : Z) (t : fwd_timeline) : Prop :=
-  first_fires (fun h => h_should_broadcast true out_cltv h false) h0 (tl_H t) /\
+  first_fires (fun h => should_broadcast_htlc_timeout true out_cltv h false) h0 (tl_H t) /\
   confirms_within (tl_H t) (tl_c1 t) /\
   confirms_within (tl_c1 t) (tl_c2 t) /\
-  tl_F t = Z.max (tl_c2 t) (h_confirmation_threshold (tl_c2 t) None).
+  tl_F t = Z.max (tl_c2 t) (confirmation_threshold (tl_c2 t) OnchainEventKind_Other 0 None).
 
 (** Inbound HTLC whose preimage is known (claim timeline). *)
 Record claim_timeline := { ct_H : Z; ct_c1 : Z; ct_c2 : Z }.
 Definition claim_timeline_ok (cltv h0 : Z) (t : claim_timeline) : Prop :=
-  first_fires (fun h => h_should_broadcast false cltv h true) h0 (ct_H t) /\
+  first_fires (fun h => should_broadcast_htlc_timeout false cltv h true) h0 (ct_H t) /\
   confirms_within (ct_H t) (ct_c1 t) /\
   confirms_within (ct_c1 t) (ct_c2 t).
